@@ -338,6 +338,14 @@ func init() {
 		}
 		seen := map[string]int{}
 		for _, n := range r.Tree {
+			// the body of a verbatim section is a text run: it starts where its first byte stands
+			if vb := c20VerbatimRe.FindString(n.Text); n.Kind == "TextNode" && vb != "" {
+				line, col := at(strings.Index(cs.Src, vb))
+				if n.Line != line || n.Off != col {
+					return &Fail{Sig: "markers:pos:verbatim-text", Expected: fmt.Sprintf("text %q at line %d column %d", vb, line, col),
+						Observed: fmt.Sprintf("line %d column %d\nsource: %q", n.Line, n.Off, cs.Src)}
+				}
+			}
 			if (n.Kind == "NameExpr" && c20MarkerRe.MatchString(n.Text)) || (n.Kind == "NumberExpr" && strings.HasPrefix(n.Text, "9") && len(n.Text) >= 3) {
 				seen[n.Text]++
 				idx := strings.Index(cs.Src, n.Text)
@@ -492,6 +500,7 @@ type c20Marker struct {
 }
 
 var c20MarkerRe = regexp.MustCompile(`^mk[0-9]+z$`)
+var c20VerbatimRe = regexp.MustCompile(`^vb[0-9]+z`)
 
 func genMarkers(t *rapid.T) *c20Marker {
 	cs := &c20Marker{}
@@ -549,7 +558,8 @@ func genMarkers(t *rapid.T) *c20Marker {
 		case 2, 3:
 			return "{{" + pick("", "-") + ws() + expr() + ws() + pick("", "-") + "}}"
 		case 4:
-			return "{% verbatim %}" + pick("{{ mk0z }}", "\n{% if %}\n", "") + "{% endverbatim %}"
+			k++
+			return "{%" + ws() + "verbatim" + ws() + "%}" + fmt.Sprintf("vb%dz", k) + pick("{{ mk0z }}", "\n{% if %}\n", "") + "{% endverbatim %}"
 		case 5:
 			return "{%" + ws() + "set" + ws() + "v" + ws() + "=" + ws() + expr() + ws() + "%}"
 		case 6:
